@@ -1031,35 +1031,48 @@ impl World {
             }
             // ------------------------------------------------------------------ faults
             K::Fault => {
-                if op.a >= 2 {
-                    self.norm(2)?;
-                }
-                arm_fault(op.b as u32);
-                let a = self.arena.as_mut().unwrap();
-                let r = guarded("collector call under trace fault", || match op.a {
-                    0 => a.finish_cycle(),
-                    1 => {
-                        let _ = a.finish_marking();
+                // op.a >= 5: the same faulty call (op.a - 5) made ten times in a row within one transition - a trace
+                // method that keeps panicking (e.g. a RefLock whose borrow guard was forgotten); the collector must
+                // keep the object pending however often that happens
+                let (which, repeats) = if op.a >= 5 { (op.a - 5, 10) } else { (op.a, 1) };
+                for round in 0..repeats {
+                    if which >= 2 {
+                        self.norm(2)?;
                     }
-                    2 => a.cycle_debt(),
-                    3 => a.collect_debt(),
-                    _ => {
-                        let _ = a.mark_debt();
-                    }
-                });
-                let fired = disarm_fault();
-                match r? {
-                    Caught::Injected => {
-                        if !fired {
-                            viol!("api.panic", "injected panic surfaced without the fault point firing");
+                    arm_fault(op.b as u32);
+                    let a = self.arena.as_mut().unwrap();
+                    let r = guarded("collector call under trace fault", || match which {
+                        0 => a.finish_cycle(),
+                        1 => {
+                            let _ = a.finish_marking();
                         }
-                        self.cov.bump("trace_fault_fired");
-                    }
-                    Caught::Done(()) => {
-                        if fired {
-                            viol!("c11.swallowed", "a panic raised in Collect::trace did not propagate out of the collector call");
+                        2 => a.cycle_debt(),
+                        3 => a.collect_debt(),
+                        _ => {
+                            let _ = a.mark_debt();
                         }
-                        return Err(Viol::new(NOFIRE, ""));
+                    });
+                    let fired = disarm_fault();
+                    match r? {
+                        Caught::Injected => {
+                            if !fired {
+                                viol!("api.panic", "injected panic surfaced without the fault point firing");
+                            }
+                            self.cov.bump("trace_fault_fired");
+                        }
+                        Caught::Done(()) => {
+                            if fired {
+                                viol!("c11.swallowed", "a panic raised in Collect::trace did not propagate out of the collector call");
+                            }
+                            if round == 0 {
+                                return Err(Viol::new(NOFIRE, ""));
+                            }
+                            break;
+                        }
+                    }
+                    if round + 1 < repeats {
+                        // (the oracles hold between the repeated calls as well)
+                        self.check()?;
                     }
                 }
             }
